@@ -198,7 +198,7 @@ Print Assumptions edge_twins_refuted.
 (* non-vacuity of the hypotheses of write_read_write_partial *)
 Example on_raster_example :
   row_on_raster (1 # 1000000) sec_rf (write_row (1 # 1000000) sec_rf [3; 123456 # 1000; 1; 2; 0; 100 # 1000000; 0; 1 # 2]).
-Proof. cbn. repeat split; reflexivity. Qed.
+Proof. vm_compute. repeat split. Qed.
 Example fixed_point_example :
   let s := mkF [(key_block_raster, [1 # 100000]); (key_rf_raster, [1 # 1000000])]
                [[1; 3 # 1000; 1; 0; 0; 0; 0; 0]] [[1; 123456789 # 1000; 1; 2; 0; 100 # 1000000; 0; 1 # 3]]
@@ -206,3 +206,61 @@ Example fixed_point_example :
                [[1; 2; 1; 1 # 3]; [2; 2; 0; 0]] (1 # 100000) (1 # 1000000) (1 # 100000) (1 # 10000000) in
   write_rows (read_rows (mkSys (1 # 50000) (1 # 500000) (1 # 50000) (1 # 10000000) 0) (write_rows s)) = write_rows s.
 Proof. vm_compute. reflexivity. Qed.
+
+(* ---- [DEFINITIONS] values (Model/Defs.v): which values are fixed points of print . parse . print -------------------
+   Character-level model of write_seq.py:58-77 and read_seq.py::__read_definitions.  The statements hold for ANY
+   white-space predicate that contains the blank, ANY number printer whose texts contain no blank and end in a
+   non-white-space character, and ANY float() that reads a printed 9-digit decimal back as that decimal (the actual
+   str.strip / '{:0.9g}' / float are instances; sampled by the definitions stream of harness/props/C02.py).
+   Classes that survive: every list of numbers — Python ints and floats of any magnitude are printed by the same
+   9-digit format, so a 12-digit int is rounded on the FIRST write and stable afterwards —, and every text that is
+   non-empty, has no white space at either end and has a blank-separated piece that float() rejects.
+   Classes that do not (known findings, each with a reproducer in the check): the empty text, white space at an end,
+   numeric-looking texts.  (Line breaks inside a text break the line structure itself and are outside this model.) *)
+From PV Require Import Gen.GenDefs Model.Defs Proofs.DefsProofs.
+
+Example defs_separator_is_blank : defs_separator = blank.
+Proof. reflexivity. Qed.
+
+Theorem defs_fixed_point_numbers : forall (is_ws : Z -> bool) render numeric_tok,
+  is_ws blank = true ->
+  (forall q, no_blank (render q)) -> (forall q, ends_solid is_ws (render q)) ->
+  (forall q, numeric_tok (render (fmt_sig def_fmt q)) = Some (fmt_sig def_fmt q)) ->
+  forall l, print_val render (parse_val is_ws numeric_tok (print_val render (DNum l))) = print_val render (DNum l).
+Proof. exact defs_fixed_point_num. Qed.
+Print Assumptions defs_fixed_point_numbers.
+
+Theorem defs_fixed_point_text : forall (is_ws : Z -> bool) render numeric_tok,
+  is_ws blank = true ->
+  forall s, starts_solid is_ws s -> ends_solid is_ws s -> all_numeric numeric_tok (split_blank s) = None ->
+  print_val render (parse_val is_ws numeric_tok (print_val render (DStr s))) = print_val render (DStr s).
+Proof. intros is_ws render numeric_tok BW. exact (defs_fixed_point_str is_ws render numeric_tok BW). Qed.
+Print Assumptions defs_fixed_point_text.
+
+Theorem defs_empty_text_refuted : forall (is_ws : Z -> bool) render numeric_tok, is_ws blank = true ->
+  print_val render (parse_val is_ws numeric_tok (print_val render (DStr []))) <> print_val render (DStr []).
+Proof. exact empty_string_not_fixed. Qed.
+Print Assumptions defs_empty_text_refuted.
+
+Theorem defs_leading_blank_refuted : forall (is_ws : Z -> bool) render numeric_tok, is_ws blank = true ->
+  forall s, starts_solid is_ws s -> ends_solid is_ws s -> all_numeric numeric_tok (split_blank (blank :: s)) = None ->
+  print_val render (parse_val is_ws numeric_tok (print_val render (DStr (blank :: s)))) <> print_val render (DStr (blank :: s)).
+Proof. exact leading_blank_not_fixed. Qed.
+Print Assumptions defs_leading_blank_refuted.
+
+Theorem defs_numeric_looking_text_refuted : forall (is_ws : Z -> bool) render numeric_tok, is_ws blank = true ->
+  forall s q, no_blank s -> ends_solid is_ws s -> numeric_tok s = Some q -> render (fmt_sig def_fmt q) <> s ->
+  print_val render (parse_val is_ws numeric_tok (print_val render (DStr s))) <> print_val render (DStr s).
+Proof. exact numeric_looking_not_fixed. Qed.
+Print Assumptions defs_numeric_looking_text_refuted.
+
+(* non-vacuity: a concrete instance of the parameters on a two-word text with a run of blanks and on the text "1e5" *)
+Definition ex_ws (c : Z) : bool := ((c =? 32) || (c =? 9))%Z.
+Definition ex_render (q : Q) : list Z := if Qeq_bool q 100000 then [49; 48; 48; 48; 48; 48]%Z else [48]%Z.
+Definition ex_float (t : list Z) : option Q :=
+  match t with [49; 101; 53]%Z => Some 100000 | [49; 48; 48; 48; 48; 48]%Z => Some 100000 | _ => None end.
+Example defs_text_example :
+  parse_val ex_ws ex_float (print_val ex_render (DStr [97; 32; 32; 98]%Z)) = DStr [97; 32; 32; 98]%Z /\
+  parse_val ex_ws ex_float (print_val ex_render (DStr [49; 101; 53]%Z)) = DNum [100000] /\
+  print_val ex_render (DNum [100000]) = [49; 48; 48; 48; 48; 48; 32]%Z.
+Proof. repeat split; vm_compute; reflexivity. Qed.
